@@ -110,6 +110,36 @@ class Repo:
         for mi in self.mods.values():
             for c in mi.classes.values():
                 self.classes.setdefault(c.name, c)
+        self._canonical_calls()
+
+    def _canonical_calls(self):
+        """Canonical call style: keyword arguments of calls to module-level functions OF THE PACKAGE are moved into the positions
+        of the callee's signature (from the left, as far as they are supplied), in the syntax trees that every rule works on.
+        `f(a, q=c, p=b)` and `f(a, b, c)` are the same call; no rule has to care how a call is written.  (Positions and line
+        numbers of the argument nodes are untouched.)"""
+        for mi in self.mods.values():
+            for c in ast.walk(mi.tree):
+                if not (isinstance(c, ast.Call) and isinstance(c.func, ast.Name) and c.keywords):
+                    continue
+                if any(isinstance(a, ast.Starred) for a in c.args) or any(k.arg is None for k in c.keywords):
+                    continue
+                r = self.resolve_name(mi, c.func.id)
+                if not isinstance(r, FuncInfo) or r.cls is not None:
+                    continue
+                fa = r.node.args
+                if fa.vararg is not None or fa.posonlyargs:
+                    continue
+                names = [a.arg for a in fa.args]
+                kws = {k.arg: k for k in c.keywords}
+                moved = []
+                for nm in names[len(c.args):]:
+                    if nm in kws:
+                        moved.append(kws[nm])
+                    else:
+                        break
+                if moved:
+                    c.args = list(c.args) + [k.value for k in moved]
+                    c.keywords = [k for k in c.keywords if k not in moved]
 
     def _index(self, mi: ModInfo):
         for n in mi.tree.body:
